@@ -4,6 +4,7 @@ package report
 
 import (
 	"bufio"
+	"os/exec"
 	"encoding/json"
 	"fmt"
 	"os"
@@ -53,6 +54,9 @@ type Run struct {
 	violationSeen map[string]int
 	inconclusive  []string
 	replayN       int
+
+	shardViolations []partialViolation
+	isShard         bool
 }
 
 // New creates a run for property id; tier from argv[1] or VERIF_TIER; seed from VERIF_SEED.
@@ -76,6 +80,7 @@ func New(id, level string) *Run {
 		nontrivial: map[string]bool{}, counters: map[string]int64{}, sets: map[string]map[string]bool{},
 		extra: map[string]any{}, knownSeen: map[string]string{}, violationSeen: map[string]int{}, maxSamples: 12}
 	r.loadFindings()
+	_, _, r.isShard = Shard()
 	return r
 }
 
@@ -193,6 +198,23 @@ type Replay struct {
 func (r *Run) Violation(key, what string, rp *Replay) {
 	r.mu.Lock()
 	defer r.mu.Unlock()
+	if r.isShard {
+		// a shard worker only records; the parent decides (known findings, one line per key)
+		n := 0
+		for _, v := range r.shardViolations {
+			if v.Key == key {
+				n++
+			}
+		}
+		if n < 2 {
+			pv := partialViolation{Key: key, What: what}
+			if rp != nil {
+				pv.Case, pv.Files = rp.Case, rp.Files
+			}
+			r.shardViolations = append(r.shardViolations, pv)
+		}
+		return
+	}
 	for _, f := range r.findings {
 		if f.Key == key {
 			if _, ok := r.knownSeen[key]; !ok {
@@ -315,6 +337,7 @@ func (r *Run) Finish(minNonTrivial int) {
 	}
 	fmt.Printf("SUMMARY property=%s tier=%s seed=%d evaluations=%d distinct_nontrivial=%d violations=%d known=%d wall=%.1fs\n",
 		r.ID, r.Tier, r.Seed, r.evals, nnt, nviol, len(known), time.Since(r.start).Seconds())
+	runCleanups()
 	if nviol > 0 {
 		os.Exit(1)
 	}
@@ -336,5 +359,166 @@ func Scratch(id string) (string, func()) {
 	if err := os.MkdirAll(dir, 0755); err != nil {
 		panic(err)
 	}
+	OnExit(func() { _ = os.RemoveAll(dir) })
 	return dir, func() { _ = os.RemoveAll(dir) }
+}
+
+// ---------------------------------------------------------------------------
+// Sharding: process-global state in the system under test (one update mutex, one OCSP cache,
+// one work-dir registry per process) makes goroutine parallelism serialise or couple cases, so
+// engines split their deterministic case list over worker processes of the same binary.
+
+type partial struct {
+	Evals        int64
+	NonTrivial   []string
+	Samples      []any
+	Counters     map[string]int64
+	Sets         map[string][]string
+	Extra        map[string]any
+	Inconclusive []string
+	Violations   []partialViolation
+}
+
+type partialViolation struct {
+	Key, What string
+	Case      any
+	Files     map[string][]byte
+}
+
+var cleanups []func()
+
+// OnExit registers a function run by Finish/FinishShard before the process exits.
+func OnExit(f func()) { cleanups = append(cleanups, f) }
+
+var execCommand = exec.Command
+
+func runCleanups() {
+	for i := len(cleanups) - 1; i >= 0; i-- {
+		cleanups[i]()
+	}
+	cleanups = nil
+}
+
+// Shard returns (index, count, true) when this process is a shard worker.
+func Shard() (int, int, bool) {
+	s := os.Getenv("VERIF_SHARD")
+	if s == "" {
+		return 0, 1, false
+	}
+	var i, n int
+	if _, err := fmt.Sscanf(s, "%d/%d", &i, &n); err != nil || n <= 0 {
+		return 0, 1, false
+	}
+	return i, n, true
+}
+
+// FinishShard writes the partial state of a shard worker and exits 0.
+func (r *Run) FinishShard() {
+	r.mu.Lock()
+	p := partial{Evals: r.evals, Samples: r.samples, Counters: r.counters, Sets: map[string][]string{}, Extra: r.extra, Inconclusive: r.inconclusive, Violations: r.shardViolations}
+	for k := range r.nontrivial {
+		p.NonTrivial = append(p.NonTrivial, k)
+	}
+	for k, m := range r.sets {
+		for x := range m {
+			p.Sets[k] = append(p.Sets[k], x)
+		}
+	}
+	r.mu.Unlock()
+	b, err := json.Marshal(p)
+	if err != nil {
+		fmt.Println("shard: marshal:", err)
+		runCleanups()
+		os.Exit(3)
+	}
+	if err := os.WriteFile(os.Getenv("VERIF_SHARD_OUT"), b, 0644); err != nil {
+		fmt.Println("shard: write:", err)
+		runCleanups()
+		os.Exit(3)
+	}
+	runCleanups()
+	os.Exit(0)
+}
+
+// RunShards starts n worker processes of this binary (same arguments and environment plus the
+// shard variables), waits for them and merges their partial states into r. extraEnv is added to
+// every worker. A worker that dies without writing its state makes the run inconclusive.
+func (r *Run) RunShards(n int, dir string, extraEnv ...string) {
+	exe := os.Getenv("VERIF_ENGINE_BIN")
+	if exe == "" {
+		exe, _ = os.Executable()
+	}
+	type res struct {
+		i   int
+		err error
+	}
+	done := make(chan res, n)
+	for i := 0; i < n; i++ {
+		go func(i int) {
+			out := filepath.Join(dir, fmt.Sprintf("shard%d.json", i))
+			logf, _ := os.Create(filepath.Join(dir, fmt.Sprintf("shard%d.log", i)))
+			defer logf.Close()
+			cmd := execCommand(exe, os.Args[1:]...)
+			cmd.Env = append(os.Environ(), fmt.Sprintf("VERIF_SHARD=%d/%d", i, n), "VERIF_SHARD_OUT="+out, fmt.Sprintf("VERIF_SEED=%d", r.Seed), "VERIF_TIER="+r.Tier)
+			cmd.Env = append(cmd.Env, extraEnv...)
+			cmd.Stdout = logf
+			cmd.Stderr = logf
+			done <- res{i, cmd.Run()}
+		}(i)
+	}
+	for k := 0; k < n; k++ {
+		d := <-done
+		out := filepath.Join(dir, fmt.Sprintf("shard%d.json", d.i))
+		b, err := os.ReadFile(out)
+		if err != nil {
+			logb, _ := os.ReadFile(filepath.Join(dir, fmt.Sprintf("shard%d.log", d.i)))
+			tail := string(logb)
+			if len(tail) > 1500 {
+				tail = tail[len(tail)-1500:]
+			}
+			r.Inconclusive(fmt.Sprintf("shard %d died without result (%v): %s", d.i, d.err, tail))
+			r.Count("shards_died", 1)
+			continue
+		}
+		var p partial
+		if err := json.Unmarshal(b, &p); err != nil {
+			r.Inconclusive(fmt.Sprintf("shard %d result unreadable: %v", d.i, err))
+			continue
+		}
+		r.merge(&p)
+	}
+}
+
+func (r *Run) merge(p *partial) {
+	r.mu.Lock()
+	r.evals += p.Evals
+	for _, k := range p.NonTrivial {
+		r.nontrivial[k] = true
+	}
+	for _, s := range p.Samples {
+		if len(r.samples) < r.maxSamples {
+			r.samples = append(r.samples, s)
+		}
+	}
+	for k, v := range p.Counters {
+		r.counters[k] += v
+	}
+	for k, xs := range p.Sets {
+		m := r.sets[k]
+		if m == nil {
+			m = map[string]bool{}
+			r.sets[k] = m
+		}
+		for _, x := range xs {
+			m[x] = true
+		}
+	}
+	for k, v := range p.Extra {
+		r.extra[k] = v
+	}
+	r.inconclusive = append(r.inconclusive, p.Inconclusive...)
+	r.mu.Unlock()
+	for _, v := range p.Violations {
+		r.Violation(v.Key, v.What, &Replay{Case: v.Case, Files: v.Files})
+	}
 }
